@@ -372,34 +372,6 @@ func (mc *memCheck) step(idx uint64, cc pb.ConfigChange, rejected bool, before, 
 			return "valid-change-rejected", fmt.Sprintf("index %d %v rejected, membership %s", idx, cc, cb)
 		}
 		mc.reasons[why]++
-	} else {
-		if mc.ordered && !cc.Initialize && cc.ConfigChangeId != before.ConfigChangeId {
-			return "stale-ccid-accepted", fmt.Sprintf("index %d %v accepted, current id %d", idx, cc, before.ConfigChangeId)
-		}
-		if after.ConfigChangeId != idx {
-			return "accepted-change-ccid-not-index", fmt.Sprintf("index %d %v: ConfigChangeId %d", idx, cc, after.ConfigChangeId)
-		}
-		// the change has exactly its documented effect
-		want := deepCopyM(before)
-		want.ConfigChangeId = idx
-		switch cc.Type {
-		case pb.AddNode:
-			delete(want.NonVotings, cc.ReplicaID)
-			want.Addresses[cc.ReplicaID] = cc.Address
-		case pb.AddNonVoting:
-			want.NonVotings[cc.ReplicaID] = cc.Address
-		case pb.AddWitness:
-			want.Witnesses[cc.ReplicaID] = cc.Address
-		case pb.RemoveNode:
-			delete(want.Addresses, cc.ReplicaID)
-			delete(want.NonVotings, cc.ReplicaID)
-			delete(want.Witnesses, cc.ReplicaID)
-			want.Removed[cc.ReplicaID] = true
-		}
-		if cw := canonMembership(want); cw != ca {
-			return "accepted-change-wrong-effect", fmt.Sprintf("index %d %v: got %s want %s", idx, cc, ca, cw)
-		}
-		mc.accepts[cc.Type.String()]++
 	}
 	// invariants on the resulting membership, whatever the verdict was
 	kinds, e := kindsOf(after)
@@ -438,6 +410,35 @@ func (mc *memCheck) step(idx uint64, cc pb.ConfigChange, rejected bool, before, 
 			return "address-shared", fmt.Sprintf("index %d %v: ids %d and %d share address %q (%s)", idx, cc, other, id, a, ca)
 		}
 		seen[a] = id
+	}
+	if !rejected {
+		if mc.ordered && !cc.Initialize && cc.ConfigChangeId != before.ConfigChangeId {
+			return "stale-ccid-accepted", fmt.Sprintf("index %d %v accepted, current id %d", idx, cc, before.ConfigChangeId)
+		}
+		if after.ConfigChangeId != idx {
+			return "accepted-change-ccid-not-index", fmt.Sprintf("index %d %v: ConfigChangeId %d", idx, cc, after.ConfigChangeId)
+		}
+		// the change has exactly its documented effect
+		want := deepCopyM(before)
+		want.ConfigChangeId = idx
+		switch cc.Type {
+		case pb.AddNode:
+			delete(want.NonVotings, cc.ReplicaID)
+			want.Addresses[cc.ReplicaID] = cc.Address
+		case pb.AddNonVoting:
+			want.NonVotings[cc.ReplicaID] = cc.Address
+		case pb.AddWitness:
+			want.Witnesses[cc.ReplicaID] = cc.Address
+		case pb.RemoveNode:
+			delete(want.Addresses, cc.ReplicaID)
+			delete(want.NonVotings, cc.ReplicaID)
+			delete(want.Witnesses, cc.ReplicaID)
+			want.Removed[cc.ReplicaID] = true
+		}
+		if cw := canonMembership(want); cw != ca {
+			return "accepted-change-wrong-effect", fmt.Sprintf("index %d %v: got %s want %s", idx, cc, ca, cw)
+		}
+		mc.accepts[cc.Type.String()]++
 	}
 	mc.kinds = kinds
 	mc.prev = deepCopyM(after)
